@@ -8,6 +8,7 @@ import (
 	"runtime/debug"
 	"sort"
 	"strings"
+	"sync/atomic"
 	"testing"
 	"testing/synctest"
 	"time"
@@ -96,6 +97,7 @@ func RunOne(t *testing.T, cfg RunCfg, out string) {
 	// real-time watchdog, outside the bubble
 	wdStop := make(chan struct{})
 	var c *conductorT
+	var cWatch atomic.Pointer[conductorT]
 	go func() {
 		last := uint64(0)
 		idle := 0
@@ -105,10 +107,11 @@ func RunOne(t *testing.T, cfg RunCfg, out string) {
 				return
 			case <-time.After(500 * time.Millisecond):
 			}
-			if c == nil {
+			wc := cWatch.Load()
+			if wc == nil {
 				continue
 			}
-			cur := c.progress.Load()
+			cur := wc.progress.Load()
 			if cur == last {
 				idle++
 			} else {
@@ -126,6 +129,7 @@ func RunOne(t *testing.T, cfg RunCfg, out string) {
 	synctest.Test(t, func(t *testing.T) {
 		c = newConductor(cfg.Seed)
 		cd = c
+		cWatch.Store(c)
 		switch cfg.Policy {
 		case "rnd":
 			c.policy = polRND
@@ -170,6 +174,7 @@ func RunOne(t *testing.T, cfg RunCfg, out string) {
 		s.mrng = NewRng(cfg.Seed, "malformed")
 		s.zrng = NewRng(cfg.Seed, "freeze")
 		s.orng = NewRng(cfg.Seed, "oracle-sampling")
+		s.rrng = NewRng(cfg.Seed, "rest")
 		s.shim.onCallback = func() { s.freeze("callback") }
 		pf, ok := profiles[cfg.Profile]
 		if !ok {
@@ -224,6 +229,10 @@ func RunOne(t *testing.T, cfg RunCfg, out string) {
 		res.MaxParked = c.maxParked
 		res.SchedSig = fmt.Sprintf("%016x", c.sigHash)
 		res.SimMs = time.Since(s.simStart).Milliseconds()
+		s.probes["rest_reads"] += s.restReads
+		if cfg.Policy != "rtc" && cfg.Policy != "" {
+			s.probes["interleaved"]++
+		}
 		res.Faults = s.faults
 		res.Probes = s.probes
 		res.NStates = len(s.stateSet)
